@@ -303,7 +303,7 @@ func (m MetropolisHastings) Sample(batch []float64) {
 	initial := m.Initial
 	for remaining != 0 {
 		newSamp := min(len(tmp), remaining)
-		metropolisHastings(tmp[newSamp:], initial, m.Target, m.Proposal, m.Src)
+		metropolisHastings(tmp[:newSamp], initial, m.Target, m.Proposal, m.Src)
 		initial = tmp[newSamp-1]
 		remaining -= newSamp
 	}
